@@ -179,3 +179,16 @@ Definition reconstruct_okb (F : list nat) (st : store) (q : pfactors) (entries :
    a query returns exactly the items whose key is compatible with it, in emplace order *)
 Definition fm_spec {A} (entries : list (pfactors * A)) (q : pfactors) : list A :=
   map snd (List.filter (fun e => compatibleb q (fst e)) entries).
+
+(* ---------------- what FasterTrie::reconstruct must deliver (as a Prop) ------------------------
+   [agree a b]: a and b give the same value to every factor both name.  The returned entries are
+   stored, agree with the query and with each other; the returned factors carry the query's and the
+   entries' values. *)
+Definition agree (a b : pfactors) : Prop :=
+  forall k v w, pf_get a k = Some v -> pf_get b k = Some w -> v = w.
+
+Definition reconstruct_spec (st : store) (q : pfactors) (entries : list entry) (f : list nat) : Prop :=
+  (forall e, In e entries -> In e st /\ agree q (snd e)) /\
+  (forall e1 e2, In e1 entries -> In e2 entries -> agree (snd e1) (snd e2)) /\
+  (forall k v, pf_get q k = Some v -> nth_error f k = Some v) /\
+  (forall e k v, In e entries -> pf_get (snd e) k = Some v -> nth_error f k = Some v).
